@@ -469,6 +469,17 @@ func extractC10Tables(repo string) (string, string, error) {
 		return "", "", fmt.Errorf("newRunnablePacker: parameters %v", ps)
 	}
 	fmt.Fprintf(&b, "(* compose/runnable.go newRunnablePacker, \"if enableCallback\": native (i s c t = Invoke Stream Collect Transform) -> its wrapper *)\nDefinition packer_table : list (string * string) :=\n  [%s].\n", strings.Join(rows, "; "))
+
+	// 9. runner.run: the skeleton that bears on the graph-level callbacks
+	grun, err := parse("compose", "graph_run.go")
+	if err != nil {
+		return "", "", err
+	}
+	skel, err := c10RunSkeleton(grun)
+	if err != nil {
+		return "", "", err
+	}
+	b.WriteString(skel)
 	return "CallbacksTables.v", b.String(), nil
 }
 
@@ -605,10 +616,68 @@ func c10RunWithCallbacks(fn *ast.FuncDecl) (string, error) {
 		return "", fmt.Errorf("runWithCallbacks: the closure's results are not named")
 	}
 	payload := map[string]string{inName: "PayIn", outName: "PayOut", errName: "PayErr"}
+	// the guard against a panic of the unit: `flag := false; defer func() { if flag { return }; … }()` before
+	// the execution, `flag = true` right after it; what the deferred function fires is what a panicking
+	// execution is served (nothing when there is no guard)
+	flag, onPanic, rePanics := "", "[]", true
+	deferredCalls := func(d *ast.DeferStmt) (string, bool, error) {
+		fl, ok := d.Call.Fun.(*ast.FuncLit)
+		if !ok || len(d.Call.Args) != 0 || len(fl.Body.List) < 2 {
+			return "", false, fmt.Errorf("runWithCallbacks: defer of something else than a guard function")
+		}
+		is, ok := fl.Body.List[0].(*ast.IfStmt)
+		if !ok || is.Init != nil || is.Else != nil || c10ExprStr(is.Cond) != flag || len(is.Body.List) != 1 {
+			return "", false, fmt.Errorf("runWithCallbacks: the deferred function does not start with `if %s { return }`", flag)
+		}
+		if r, ok := is.Body.List[0].(*ast.ReturnStmt); !ok || len(r.Results) != 0 {
+			return "", false, fmt.Errorf("runWithCallbacks: the deferred function does not start with `if %s { return }`", flag)
+		}
+		var calls []string
+		re := false
+		for i, st := range fl.Body.List[1:] {
+			switch x := st.(type) {
+			case *ast.AssignStmt:
+				if len(x.Rhs) == 1 {
+					if c, ok := x.Rhs[0].(*ast.CallExpr); ok {
+						if ro, ok := role[c10ExprStr(c.Fun)]; ok {
+							if len(c.Args) != 2 || c10ExprStr(c.Args[0]) != "ctx" || !strings.Contains(c10ExprStr(c.Args[1]), "panicValue") {
+								return "", false, fmt.Errorf("runWithCallbacks: callback in the panic guard is not handed (ctx, an error made of the panic value)")
+							}
+							calls = append(calls, "RCall "+ro+" PayPanic")
+							continue
+						}
+						if x.Tok == token.DEFINE && len(x.Lhs) == 1 && c10ExprStr(x.Lhs[0]) == "panicValue" && strings.Contains(c10ExprStr(x.Rhs[0]), "recover()") {
+							continue
+						}
+					}
+				}
+			case *ast.ExprStmt:
+				if c, ok := x.X.(*ast.CallExpr); ok && c10ExprStr(c.Fun) == "panic" && len(c.Args) == 1 && c10ExprStr(c.Args[0]) == "panicValue" && i == len(fl.Body.List)-2 {
+					re = true
+					continue
+				}
+			}
+			return "", false, fmt.Errorf("runWithCallbacks: statement of the panic guard outside the translated fragment")
+		}
+		return "[" + strings.Join(calls, "; ") + "]", re, nil
+	}
 	var seqOf func(l []ast.Stmt, executed bool) (string, error)
 	seqOf = func(l []ast.Stmt, executed bool) (string, error) {
 		if len(l) == 0 {
 			return "", fmt.Errorf("runWithCallbacks: control reaches the end of the closure")
+		}
+		// flag := false
+		if as, ok := l[0].(*ast.AssignStmt); ok && !executed && flag == "" && as.Tok == token.DEFINE && len(as.Lhs) == 1 && len(as.Rhs) == 1 && c10ExprStr(as.Rhs[0]) == "false" {
+			if len(l) > 1 {
+				if d, ok := l[1].(*ast.DeferStmt); ok {
+					flag = c10ExprStr(as.Lhs[0])
+					var err error
+					if onPanic, rePanics, err = deferredCalls(d); err != nil {
+						return "", err
+					}
+					return seqOf(l[2:], executed)
+				}
+			}
 		}
 		switch x := l[0].(type) {
 		case *ast.ReturnStmt:
@@ -629,8 +698,21 @@ func c10RunWithCallbacks(fn *ast.FuncDecl) (string, error) {
 					// output, err = r(ctx, input, opts...)
 					if f == "r" && !executed && len(c.Args) == 3 && c10ExprStr(c.Args[0]) == "ctx" && c10ExprStr(c.Args[1]) == inName &&
 						c10ExprStr(x.Lhs[0]) == outName && c10ExprStr(x.Lhs[1]) == errName {
-						rest, err := seqOf(l[1:], true)
-						return "RExec :: " + rest, err
+						after := l[1:]
+						if flag != "" {
+							// flag = true must follow at once
+							if len(after) == 0 || c10Squash(c10StmtStr(after[0])) != flag+"=true" {
+								return "", fmt.Errorf("runWithCallbacks: `%s = true` does not follow the execution", flag)
+							}
+							after = after[1:]
+						}
+						rest, err := seqOf(after, true)
+						pan := onPanic
+						if !rePanics {
+							// a guard that does not let the panic go on changes what the callers see
+							pan = "(if unk \"the panic guard swallows the panic\" then [] else " + onPanic + ")"
+						}
+						return "RExec :: (if panicked then " + pan + " else " + rest + ")", err
 					}
 				}
 			}
@@ -660,6 +742,296 @@ func c10RunWithCallbacks(fn *ast.FuncDecl) (string, error) {
 		return "", err
 	}
 	return "(* compose/utils.go: func runWithCallbacks, the returned closure statement by statement: the callbacks fired around the\n" +
-		"   execution of the unit (RExec), with the payload each is handed, when the execution fails / succeeds *)\n" +
-		"Definition run_with_callbacks (unk : string -> bool) (failed : bool) : list rcall :=\n  " + body + ".\n\n", nil
+		"   execution of the unit (RExec), with the payload each is handed, when the execution succeeds, returns an error,\n" +
+		"   panics *)\n" +
+		"Definition run_with_callbacks (unk : string -> bool) (o : exec_outcome) : list rcall :=\n" +
+		"  let failed := match o with ExErr => true | _ => false end in\n" +
+		"  let panicked := match o with ExPanic => true | _ => false end in\n  " + body + ".\n\n", nil
+}
+
+// ---------------------------------------------------------------- runner.run
+
+type c10Skel struct {
+	errName, resName string
+	seen             int // recognised occurrences of the four identifiers
+}
+
+var c10SkelIdents = map[string]bool{"onGraphStart": true, "onGraphEnd": true, "onGraphError": true, "haveOnStart": true}
+
+func c10CountIdents(n ast.Node) int {
+	k := 0
+	ast.Inspect(n, func(m ast.Node) bool {
+		if id, ok := m.(*ast.Ident); ok && c10SkelIdents[id.Name] {
+			k++
+		}
+		return true
+	})
+	return k
+}
+
+func c10HasReturn(n ast.Node) bool {
+	found := false
+	ast.Inspect(n, func(m ast.Node) bool {
+		if _, ok := m.(*ast.FuncLit); ok {
+			return false
+		}
+		if _, ok := m.(*ast.ReturnStmt); ok {
+			found = true
+		}
+		return !found
+	})
+	return found
+}
+
+func c10GList(items []string) string { return "[" + strings.Join(items, "; ") + "]" }
+
+// cond: a test of the flag (or, in the deferred function, of the named error result); anything else is opaque
+func (k *c10Skel) cond(e ast.Expr, deferred bool) string {
+	switch x := e.(type) {
+	case *ast.ParenExpr:
+		return k.cond(x.X, deferred)
+	case *ast.Ident:
+		if x.Name == "haveOnStart" {
+			k.seen++
+			return "GcFlag"
+		}
+	case *ast.UnaryExpr:
+		if x.Op == token.NOT && c10CountIdents(x.X) > 0 {
+			return "(GcNot " + k.cond(x.X, deferred) + ")"
+		}
+	case *ast.BinaryExpr:
+		if (x.Op == token.LAND || x.Op == token.LOR) && (c10CountIdents(x) > 0 || (deferred && strings.Contains(c10ExprStr(x), k.errName))) {
+			op := "GcAnd"
+			if x.Op == token.LOR {
+				op = "GcOr"
+			}
+			return "(" + op + " " + k.cond(x.X, deferred) + " " + k.cond(x.Y, deferred) + ")"
+		}
+		if deferred && c10ExprStr(x) == k.errName+"!=nil" {
+			return "GcErr"
+		}
+		if deferred && c10ExprStr(x) == k.errName+"==nil" {
+			return "(GcNot GcErr)"
+		}
+	}
+	return "(GcOpaque " + c10CoqStr(c10ExprStr(e)) + ")"
+}
+
+func (k *c10Skel) stmts(l []ast.Stmt, deferred, inLoop bool) ([]string, error) {
+	var out []string
+	for _, s := range l {
+		g, err := k.stmt(s, deferred, inLoop)
+		if err != nil {
+			return nil, err
+		}
+		out = append(out, g...)
+	}
+	return out, nil
+}
+
+func (k *c10Skel) stmt(s ast.Stmt, deferred, inLoop bool) ([]string, error) {
+	relevant := c10CountIdents(s) > 0 || c10HasReturn(s)
+	switch x := s.(type) {
+	case *ast.BlockStmt:
+		return k.stmts(x.List, deferred, inLoop)
+	case *ast.ReturnStmt:
+		if deferred {
+			if len(x.Results) != 0 {
+				return nil, fmt.Errorf("runner.run: the deferred function returns a value")
+			}
+			return nil, fmt.Errorf("runner.run: return inside the deferred function")
+		}
+		if len(x.Results) != 2 {
+			return nil, fmt.Errorf("runner.run: return with %d results", len(x.Results))
+		}
+		return []string{fmt.Sprintf("GsReturn %v", c10ExprStr(x.Results[1]) != "nil")}, nil
+	case *ast.AssignStmt:
+		if len(x.Rhs) == 1 && len(x.Lhs) == 2 {
+			if c, ok := x.Rhs[0].(*ast.CallExpr); ok {
+				if id, ok := c.Fun.(*ast.Ident); ok && x.Tok == token.ASSIGN && c10ExprStr(x.Lhs[0]) == "ctx" && len(c.Args) >= 2 && c10ExprStr(c.Args[0]) == "ctx" {
+					arg := c10ExprStr(c.Args[1])
+					switch {
+					case id.Name == "onGraphStart" && c10ExprStr(x.Lhs[1]) == "input" && arg == "input" && len(c.Args) == 3:
+						k.seen++
+						return []string{"GsCall CbStart"}, nil
+					case id.Name == "onGraphEnd" && c10ExprStr(x.Lhs[1]) == k.resName && arg == k.resName && len(c.Args) == 3:
+						k.seen++
+						return []string{"GsCall CbEnd"}, nil
+					case id.Name == "onGraphError" && c10ExprStr(x.Lhs[1]) == k.errName && arg == k.errName && len(c.Args) == 2:
+						k.seen++
+						return []string{"GsCall CbError"}, nil
+					}
+				}
+			}
+		}
+		if len(x.Lhs) == 1 && len(x.Rhs) == 1 && c10ExprStr(x.Lhs[0]) == "haveOnStart" && x.Tok == token.ASSIGN {
+			v := c10ExprStr(x.Rhs[0])
+			if v == "true" || v == "false" {
+				k.seen++
+				return []string{"GsSetFlag " + v}, nil
+			}
+		}
+	case *ast.IfStmt:
+		if !relevant {
+			return nil, nil
+		}
+		if x.Init != nil && (c10CountIdents(x.Init) > 0 || c10HasReturn(x.Init)) {
+			return nil, fmt.Errorf("runner.run: if-init statement bearing on the callbacks")
+		}
+		c := k.cond(x.Cond, deferred)
+		th, err := k.stmts(x.Body.List, deferred, inLoop)
+		if err != nil {
+			return nil, err
+		}
+		var el []string
+		if x.Else != nil {
+			if el, err = k.stmt(x.Else, deferred, inLoop); err != nil {
+				return nil, err
+			}
+		}
+		return []string{"GsIf " + c + " " + c10GList(th) + " " + c10GList(el)}, nil
+	case *ast.ForStmt, *ast.RangeStmt:
+		if !relevant {
+			return nil, nil
+		}
+		var body *ast.BlockStmt
+		exits := true
+		if f, ok := x.(*ast.ForStmt); ok {
+			body, exits = f.Body, f.Cond != nil
+			for _, part := range []ast.Node{f.Init, f.Cond, f.Post} {
+				if part != nil && !(part == ast.Node((*ast.AssignStmt)(nil))) && c10CountIdents(part) > 0 {
+					return nil, fmt.Errorf("runner.run: loop header bearing on the callbacks")
+				}
+			}
+		} else {
+			body = x.(*ast.RangeStmt).Body
+		}
+		b, err := k.stmts(body.List, deferred, true)
+		if err != nil {
+			return nil, err
+		}
+		return []string{fmt.Sprintf("GsLoop %v %s", exits, c10GList(b))}, nil
+	case *ast.SwitchStmt, *ast.TypeSwitchStmt, *ast.SelectStmt:
+		if !relevant {
+			return nil, nil
+		}
+		var clauses []ast.Stmt
+		switch y := x.(type) {
+		case *ast.SwitchStmt:
+			clauses = y.Body.List
+		case *ast.TypeSwitchStmt:
+			clauses = y.Body.List
+		case *ast.SelectStmt:
+			clauses = y.Body.List
+		}
+		// a chain of opaque ifs; without a default clause no case may be taken
+		chain := "[]"
+		for i := len(clauses) - 1; i >= 0; i-- {
+			var body []ast.Stmt
+			isDefault := false
+			switch cl := clauses[i].(type) {
+			case *ast.CaseClause:
+				body, isDefault = cl.Body, cl.List == nil
+			case *ast.CommClause:
+				body, isDefault = cl.Body, cl.Comm == nil
+			}
+			for _, st := range body {
+				bad := false
+				ast.Inspect(st, func(m ast.Node) bool {
+					if br, ok := m.(*ast.BranchStmt); ok && (br.Tok == token.BREAK || br.Tok == token.FALLTHROUGH) {
+						bad = true
+					}
+					return true
+				})
+				if bad {
+					return nil, fmt.Errorf("runner.run: break / fallthrough inside a switch or select")
+				}
+			}
+			bs, err := k.stmts(body, deferred, inLoop)
+			if err != nil {
+				return nil, err
+			}
+			if isDefault && i == len(clauses)-1 {
+				chain = c10GList(bs)
+				continue
+			}
+			chain = "[GsIf (GcOpaque \"case\"%string) " + c10GList(bs) + " " + chain + "]"
+		}
+		return []string{strings.TrimSuffix(strings.TrimPrefix(chain, "["), "]")}, nil
+	case *ast.BranchStmt:
+		if x.Label == nil && inLoop {
+			switch x.Tok {
+			case token.BREAK:
+				return []string{"GsBreak"}, nil
+			case token.CONTINUE:
+				return []string{"GsContinue"}, nil
+			}
+		}
+		return nil, fmt.Errorf("runner.run: branch statement %s", x.Tok)
+	case *ast.DeferStmt, *ast.GoStmt, *ast.LabeledStmt:
+		return nil, fmt.Errorf("runner.run: defer / go / label inside the body")
+	}
+	if relevant {
+		if c10HasReturn(s) {
+			return nil, fmt.Errorf("runner.run: a return inside a statement outside the translated fragment")
+		}
+		return nil, fmt.Errorf("runner.run: a statement mentions the graph-level callbacks outside the translated forms")
+	}
+	return nil, nil // no bearing on the graph-level callbacks
+}
+
+func c10RunSkeleton(f *ast.File) (string, error) {
+	var fn *ast.FuncDecl
+	for _, d := range f.Decls {
+		if x, ok := d.(*ast.FuncDecl); ok && x.Name.Name == "run" && x.Recv != nil && len(x.Recv.List) == 1 && c10ExprStr(x.Recv.List[0].Type) == "*runner" {
+			fn = x
+		}
+	}
+	if fn == nil || fn.Body == nil {
+		return "", fmt.Errorf("method (*runner).run not found")
+	}
+	res := fn.Type.Results
+	if res == nil || len(res.List) != 2 || len(res.List[0].Names) != 1 || len(res.List[1].Names) != 1 {
+		return "", fmt.Errorf("runner.run: the results are not named")
+	}
+	k := &c10Skel{resName: res.List[0].Names[0].Name, errName: res.List[1].Names[0].Name}
+	l := fn.Body.List
+	if len(l) < 3 {
+		return "", fmt.Errorf("runner.run: body too short")
+	}
+	as, ok := l[0].(*ast.AssignStmt)
+	if !ok || as.Tok != token.DEFINE || len(as.Lhs) != 1 || c10ExprStr(as.Lhs[0]) != "haveOnStart" || len(as.Rhs) != 1 {
+		return "", fmt.Errorf("runner.run: does not begin with haveOnStart := …")
+	}
+	flag0 := c10ExprStr(as.Rhs[0])
+	if flag0 != "true" && flag0 != "false" {
+		return "", fmt.Errorf("runner.run: haveOnStart := %s", flag0)
+	}
+	k.seen++
+	d, ok := l[1].(*ast.DeferStmt)
+	if !ok {
+		return "", fmt.Errorf("runner.run: the second statement is not the deferred bookkeeping")
+	}
+	fl, ok := d.Call.Fun.(*ast.FuncLit)
+	if !ok || len(d.Call.Args) != 0 {
+		return "", fmt.Errorf("runner.run: defer of something else than a function literal")
+	}
+	def, err := k.stmts(fl.Body.List, true, false)
+	if err != nil {
+		return "", err
+	}
+	body, err := k.stmts(l[2:], false, false)
+	if err != nil {
+		return "", err
+	}
+	if total := c10CountIdents(fn.Body); total != k.seen {
+		return "", fmt.Errorf("runner.run: %d mentions of haveOnStart / onGraphStart / onGraphEnd / onGraphError, %d in translated forms", total, k.seen)
+	}
+	var b strings.Builder
+	b.WriteString("\n(* compose/graph_run.go: func (r *runner) run, what bears on the graph-level callbacks (Model/CallbacksGenLib.v gstmt):\n")
+	b.WriteString("   the initial value of haveOnStart, the deferred function, the body *)\n")
+	b.WriteString("Definition run_flag_init : bool := " + flag0 + ".\n")
+	b.WriteString("Definition run_deferred : list gstmt :=\n  " + c10GList(def) + ".\n")
+	b.WriteString("Definition run_body : list gstmt :=\n  " + c10GList(body) + ".\n")
+	return b.String(), nil
 }
